@@ -1,6 +1,7 @@
 # -*- coding: utf-8 -*-
 
-from vsg import violation
+from vsg import parser, violation
+from vsg.token import delimited_comment
 from vsg.rule_group import structure
 
 
@@ -38,4 +39,16 @@ class remove_tokens_bounded_by_tokens_and_remove_trailing_whitespace(structure.R
             self.add_violation(violation.New(oToi.get_line_number(), oToi, self.solution))
 
     def _fix_violation(self, oViolation):
-        oViolation.set_tokens([])
+        lTokens = oViolation.get_tokens()
+        lKeep = []
+        bInDelimitedComment = False
+        for iToken, oToken in enumerate(lTokens):
+            if isinstance(oToken, delimited_comment.beginning):
+                bInDelimitedComment = True
+            if bInDelimitedComment or isinstance(oToken, parser.comment):
+                lKeep.append(oToken)
+            elif isinstance(oToken, parser.carriage_return) and iToken > 0 and type(lTokens[iToken - 1]) is parser.comment:
+                lKeep.append(oToken)
+            if isinstance(oToken, delimited_comment.ending):
+                bInDelimitedComment = False
+        oViolation.set_tokens(lKeep)
